@@ -5,7 +5,7 @@
    list of a packed k-mer, [kmer_at K l i] = bases i..i+K of the list [l]; [None] = the Rust code panics. *)
 From Coq Require Import NArith List Bool Arith.
 From DBG Require Import Spec.Dna Packed.KmerModel Packed.ExtsModel Packed.Blocks Packed.DnaStringModel Packed.SliceModel
-  Packed.LmerModel Algo.Iter Proofs.KmerDefaults Proofs.LmerProofs Proofs.IterProofs.
+  Packed.LmerModel Algo.Iter Algo.SeqHist Proofs.KmerDefaults Proofs.LmerProofs Proofs.IterProofs Proofs.DnaStringProofs Proofs.ExtractClosed.
 Import ListNotations.
 Open Scope N_scope.
 
@@ -184,3 +184,38 @@ Print Assumptions C13_bytes_iter_kmer_exts.
 Print Assumptions C13_kmers_from_bytes.
 Print Assumptions C13_kmers_from_ascii.
 Print Assumptions C13_kmer_exts_item_form.
+
+(* ---- CLOSED forms (end of session 4): composed with C14 / C17, no representation-invariant hypothesis is left.  The
+   container reached by ANY in-range history of construction / mutation operations - DnaString from the empty string,
+   Lmer of capacity n from Lmer::new(len) - yields through get_kmer (every position), through the k-mer iterator and, for
+   the DnaString, through every forward / reverse-complemented window, exactly the k-mers of the plain list obtained by
+   applying the same operations to a list. *)
+Theorem C13_dnastring_history_kmers : forall c, In c shipped -> forall ops, dops_ok 0 ops = true ->
+  let l := fold_left sdstep ops [] in
+  exists s, dsteps d_new ops = Some s /\ d_len s = length l /\
+    (forall pos, (pos + kK c <= length l)%nat ->
+       exists r, d_get_kmer c s pos = Some r /\ wf (kK c) r /\ decode (kK c) r = kmer_at (kK c) l pos) /\
+    (exists ks, iter_kmers c (d_len s) (d_get s) (d_get_kmer c s) = Some ks /\ Forall (wf (kK c)) ks /\
+                map (decode (kK c)) ks = kmers (kK c) l) /\
+    (forall sl pos, (s_start sl + s_length sl <= length l)%nat -> (pos + kK c <= s_length sl)%nat ->
+       exists r, sl_get_kmer c s sl pos = Some r /\ wf (kK c) r /\
+                 decode (kK c) r = kmer_at (kK c) (sl_view l sl) pos).
+Proof. exact dnastring_history_kmers. Qed.
+Theorem C13_lmer_history_kmers : forall c, In c shipped -> forall n len ops,
+  (1 <= n <= 6)%nat -> (len <= l_max_len n)%nat -> forallb (lop_ok len) ops = true ->
+  let l := fold_left slstep ops (repeat 0 len) in
+  exists x0 x, l_new n len = Some x0 /\ lsteps x0 ops = Some x /\
+    (forall pos, (pos + kK c <= len)%nat ->
+       exists r, l_get_kmer c x pos = Some r /\ wf (kK c) r /\ decode (kK c) r = kmer_at (kK c) l pos) /\
+    (exists ks, iter_kmers c len (l_get x) (l_get_kmer c x) = Some ks /\ Forall (wf (kK c)) ks /\
+                map (decode (kK c)) ks = kmers (kK c) l).
+Proof. exact lmer_history_kmers. Qed.
+(* non-vacuity: a history crossing a block boundary, then the 5-mer straddling it *)
+Example C13_history_nonvacuous :
+  dops_ok 0 [DExtend (repeat 1 30); DPush 2; DPush 3; DPush 0; DSet 29 3] = true /\
+  (match dsteps d_new [DExtend (repeat 1 30); DPush 2; DPush 3; DPush 0; DSet 29 3] with
+   | Some s => option_map (decode 5) (d_get_kmer (mkc 16 5) s 28) = Some [1; 3; 2; 3; 0]
+   | None => False end).
+Proof. vm_compute. auto. Qed.
+Print Assumptions C13_dnastring_history_kmers.
+Print Assumptions C13_lmer_history_kmers.
